@@ -173,3 +173,28 @@ META = {
         "fuzz": [{"name": "FuzzC05Reverse", "seconds": 60}],
     },
 }
+
+# Additions of later rounds (DESIGN.md sections 3.5 and 5, "Later additions"), appended to the level texts.
+ADDENDA = {
+    "C01": "Also: the same datagram a second time in the other header mode, one SA object in both roles, two holders sending in one direction; messages housed in shared backing arrays (bridge.Arena); datagrams unprotected from roomy receive buffers with sentinel octets behind them; injected random streams that read short.",
+    "C02": "Also: both cleartext type octets set to every value, truncations with re-framed lengths, receivers that accepted the genuine message first, roomy receive buffers (nothing behind the datagram written; a refused datagram is refused again from the same buffer).",
+    "C03": "Also: every other message is housed in shared backing arrays (each octet string and list has spare capacity and another field of the message behind it) and must be unchanged after Encode.",
+    "C04": "Also: an allocation guard (heap octets allocated per decoder call <= 16 MiB + 1 KiB per input octet), no write to the poisoned spare capacity behind the input, key sets whose algorithm descriptors were looked up by unknown names.",
+    "C05": "Also: messages housed in shared backing arrays must be unchanged after Encode; traffic selector addresses include the ones address-handling code treats specially (IPv4-mapped etc.).",
+    "C06": "Also: injected random streams delivered in short reads; messages housed in shared backing arrays; roomy receive buffers.",
+    "C07": "Also: nonces and shared secret as views into one buffer (nothing in it may be written), second derivation on the same object (right keys or a refusal).",
+    "C08": "Also: nonces up to 600 octets held back to back in one buffer, Child SAs negotiated first and keyed later, by-value copies of one negotiated template, empty non-nil key fields, an IKE SA holding the keyed PRF object only, keys of the last 16 Child SAs re-checked after every derivation.",
+    "C09": "Also: transient failures of the random source (only read k fails), failures behind too-small candidates, sources that read short, arguments not modified; a hang that depends on earlier failures is reported after a second run of the shard.",
+    "C10": "Also: plaintexts with spare capacity, sources that read short, transient failures enumerated at every read, ciphertexts handed out earlier re-checked at the end of the history.",
+    "C11": "Also: every ordered pair of negotiations through every path to a descriptor (the first descriptor still describes its own algorithm after the second was decoded), the last 24 descriptors handed out asked again whenever a new one is obtained, unknown algorithm names answered with a plain nil descriptor.",
+    "C13": "Also: insertions in the outer chain of a protected message, plain datagrams through DecodeDecrypt with and without keys, host messages carrying an opaque Encrypted payload.",
+    "C14": "Also: refused SetAttr calls interleaved, Marshal after every SetAttr, the caller's value buffer and the receive buffer reused, a second decoded copy unaffected by changes to the first, decoding into an EAP value that has decoded before.",
+    "C15": "Also: reference-built packets with repeated AT_KDF, with attributes outside the model and of more than 4096 octets; repeated computations (wrong key, right key twice, once more after a refused SetAttr); MAC of a decoded-then-modified packet.",
+    "C16": "Also: IK' and CK' as views into one buffer (nothing in it may be written); keys returned earlier unchanged after further derivations.",
+    "C17": "Also: authentic-but-malformed messages (right checksum; SK body of arbitrary length, impossible pad length, or octets that are no payload chain), tampering of a message just accepted; a step that never returns is a violation.",
+    "C18": "Also: decode-modify-encode operations on messages and EAP packets (every reachable octet string of the decoded value is written to), decode inputs with unsupported payloads, sender liberties and mutations; the concurrent phase runs before the sequential reference run and every process starts with a cold burst of all operation kinds.",
+    "C19": "Also: octet-string arguments as views with spare capacity (unchanged afterwards), Reset-then-build on all five container types, a Delete count argument disagreeing with the SPI list, a builder that returns an error appends nothing.",
+    "C20": "Also: messages housed in shared backing arrays, every returned buffer overwritten (IKEHeader.Marshal() stays what it was), the caller's own container variable after EncodeEncrypt, six encodings of every accepted input.",
+}
+for _k, _v in ADDENDA.items():
+    META[_k]["level_text"] = META[_k]["level_text"].rstrip() + " " + _v
